@@ -38,6 +38,12 @@ impl PreprocessedText {
     }
 
     fn push<T: AsRef<Path>>(&mut self, s: &str, origin: Option<(T, Range)>) {
+        // An empty segment would become a zero-width key which shadows
+        // the next segment starting at the same position.
+        if s.is_empty() {
+            return;
+        }
+
         let base = self.text.len();
         self.text.push_str(s);
 
